@@ -4,6 +4,8 @@ import (
 	"context"
 	"errors"
 	"fmt"
+	"google.golang.org/grpc/codes"
+	"google.golang.org/grpc/status"
 	"net/http"
 	"net/http/httptest"
 	"strings"
@@ -580,6 +582,14 @@ func TestC09(t *testing.T) {
 							}
 							col.Add("ev_success_despite_fault", 1)
 							break
+						}
+						// R0: the failure is reported as a failure, not as a (false) statement
+						// about the data: the fault-free twin of this very call succeeds, so
+						// "already exists", "not found" or "invalid argument" are untrue, and a
+						// client that believes them will not retry
+						switch c := status.Code(err); c {
+						case codes.AlreadyExists, codes.NotFound, codes.InvalidArgument, codes.FailedPrecondition, codes.OutOfRange, codes.Unimplemented, codes.PermissionDenied, codes.Unauthenticated:
+							col.Violation("fault-reported-as-domain-error:"+op.name, fmt.Sprintf("%s: a storage fault at statement %d (%s) was answered with %v (%v), which is false: the same call succeeds without the fault", op.name, k, modeName[mode], c, err), wit())
 						}
 						// R1: nothing of a failed transaction is visible
 						base := dump0
